@@ -1,6 +1,7 @@
 from __future__ import annotations
 
 import calendar
+import copyreg
 import datetime
 import traceback
 
@@ -1368,7 +1369,10 @@ class DateTime(datetime.datetime, Date):
         type[Self],
         tuple[int, int, int, int, int, int, int, datetime.tzinfo | None],
     ]:
-        return self.__class__, self._getstate(protocol)
+        return (
+            copyreg.__newobj_ex__,  # type: ignore[attr-defined]
+            (self.__class__, self._getstate(protocol), {"fold": self.fold}),
+        )
 
     def __deepcopy__(self, _: dict[int, Self]) -> Self:
         return self.__class__(
